@@ -310,5 +310,11 @@ Fixpoint run_sx (s : rstate) (es : list revent) : list sx :=
   | e :: es' => let '(s1, o) := rstep s e in L [sx_of_out o; sx_of_state s1] :: run_sx s1 es'
   end.
 
+(* optional third field: the receiver window at the start (0 / absent = the default 1 MiB), so that
+   short event lists reach an exhausted window *)
 Definition main (x : sx) : sx :=
-  L (run_sx (rinit (sx_z (sx_nth x 0))) (map ev_of_sx (sx_l (sx_nth x 1)))).
+  let s0 := rinit (sx_z (sx_nth x 0)) in
+  let w := sx_z (sx_nth x 2) in
+  let s1 := if Z.eqb w 0 then s0
+            else mkR (last_rx s0) (misordered s0) (duplicates s0) (streams s0) w (sack_needed s0) in
+  L (run_sx s1 (map ev_of_sx (sx_l (sx_nth x 1)))).
